@@ -1269,3 +1269,938 @@ class C10(Base):
         surf, rpcs = c10_surface_lines(r.fork(2), self.n(tier, 8, 50))
         return [Stream("S3-rpc-signer-body-grid", c10_lines(r.fork(1), self.n(tier, 200, 2000)), fields=f, oracle=c10_oracle),
                 Stream("S3-descriptor-enumerated-surface", surf, model=False, oracle=c10_oracle, note="%d RPCs from the service descriptors: %s" % (len(rpcs), ",".join(x[0].split("/")[-1] for x in rpcs)))]
+
+
+# ----------------------------------------------------------------------------------------------- C11
+
+def c11_lines(r, n, toks):
+    """the same transfers on the same state, once with an empty orbiter account and once after deposits"""
+    base = []
+    for _ in range(n):
+        base.append(scen.rand_transfer2(r, "recvh", toks))
+    lines1, _ = scen.base_setup()
+    lines2, _ = scen.base_setup()
+    pairs = []
+    l1 = list(lines1)
+    l2 = list(lines2)
+    deposits = {}
+    for t in base:
+        i1 = len(l1)
+        l1.append(t)
+        nd = r.below(3)
+        dep = {}
+        for _ in range(nd):
+            d = r.choice(DENOMS + ["stake"])
+            a = r.choice([1, 7, 10 ** 6, 10 ** 24, r.range(1, 10 ** 9)])
+            dep[d] = dep.get(d, 0) + a
+            l2.append("deposit %s %s %d" % (hx(ORB_BYTES), hx(d), a))
+        i2 = len(l2)
+        l2.append(t)
+        pairs.append((i1, i2, dep))
+    return l1, l2, pairs
+
+
+def strip_orb_dust(bal):
+    d = parse_delta(bal)
+    return {k: v for k, v in d.items() if k[0] not in (ORBHEX, DUSTHEX)}
+
+
+def c11_make_oracle(off2, pairs):
+    def oracle(steps):
+        out = []
+        held = {}
+        for (i1, i2, dep) in pairs:
+            a, b = steps[i1], steps[off2 + i2]
+            for d, v in dep.items():
+                held[d] = held.get(d, 0) + v
+            for k in ("ack", "hreq", "ev", "st"):
+                if a.impl.get(k) != b.impl.get(k):
+                    out.append((off2 + i2, "depends-on-dust: %s differs with pre-existing orbiter coins: %s vs %s" % (k, (a.impl.get(k) or "")[:160], (b.impl.get(k) or "")[:160])))
+                    break
+            else:
+                if strip_orb_dust(a.impl.get("bal")) != strip_orb_dust(b.impl.get("bal")):
+                    out.append((off2 + i2, "depends-on-dust: balance effects on other accounts differ with pre-existing orbiter coins"))
+            if b.impl.get("ack") == "ok":
+                p = packet_of(b.line)
+                dn = p["ftpd"]["denom"][len(p["src_port"] + "/" + p["src_chan"] + "/"):]
+                db = parse_delta(b.impl.get("bal"))
+                want = held.get(dn, 0)
+                if db.get((DUSTHEX, dn), 0) != want:
+                    out.append((off2 + i2, "dust-not-swept: dust collector received %d %s, %d were sitting on the orbiter account" % (db.get((DUSTHEX, dn), 0), dn, want)))
+                for (acc, d), v in db.items():
+                    if acc == ORBHEX and d != dn:
+                        # a denomination-changing action may leave nothing either; any change of another denom is a use of dust
+                        out.append((off2 + i2, "other-denom-touched: orbiter balance of %s changed by %d during a %s transfer" % (d, v, dn)))
+                held[dn] = 0
+        return out
+    return oracle
+
+
+@prop
+class C11(Base):
+    id = "C11"
+    assumptions = C01.assumptions + ["`c11_others_left` is proved for mailboxes whose post-dispatch hook charges nothing or charges in the transferred denomination (see the known finding for a charging hook in another denomination)"]
+
+    def streams(self, tier, seed):
+        out = []
+        _, toks = scen.base_setup()
+        for h in range(self.n(tier, 2, 8)):
+            r = Rng(seed * 100000 + 1100 + h)
+            l1, l2, pairs = c11_lines(r, self.n(tier, 120, 500), toks)
+            lines = l1 + l2
+            f = {"recvh": ["ack", "bal", "hreq", "st"]}
+            out.append(Stream("S3-paired-with-and-without-deposits-%d" % h, lines, fields=f, oracle=c11_make_oracle(len(l1), pairs), shrink=False))
+        # the recorded finding: a mailbox whose default hook charges gas in a denomination the orbiter happens to hold
+        tok = toks[0][0]
+        kf, _ = scen.base_setup()
+        kf += ["env hyp igp %s 1 10000000000 1 50000" % hx("stake"), "deposit %s %s 5000000" % (hx(ORB_BYTES), hx("stake")),
+               orb_pkt("recv", 10 ** 6, hyp_fwd(tok, domain=1, gas=100000, fee=("stake", 10 ** 6))), "env hyp noop"]
+        out.append(Stream("S3-igp-hook-corpus", kf, fields={"recv": ["ack", "bal"]}, oracle=c11_igp_oracle))
+        return out
+
+
+def c11_igp_oracle(steps):
+    out = []
+    for s in steps:
+        if s.op == "recv" and s.impl.get("ack") == "ok":
+            p = packet_of(s.line)
+            dn = p["ftpd"]["denom"][len(p["src_port"] + "/" + p["src_chan"] + "/"):]
+            for (acc, d), v in parse_delta(s.impl.get("bal")).items():
+                if acc == ORBHEX and d != dn and v != 0:
+                    out.append((s.i, "other-denom-touched: orbiter balance of %s changed by %d during a %s transfer" % (d, v, dn)))
+    return out
+
+
+# ----------------------------------------------------------------------------------------------- C12
+
+def c12_oracle(steps):
+    """the statistics are the fold of the successful transfers (recomputed from implementation observations)"""
+    out = []
+    amts, cnts = {}, {}
+    for s in steps:
+        if s.op == "setup":
+            amts, cnts = {}, {}
+        if s.op in ("recvh",) and s.impl.get("ack") == "ok":
+            p = packet_of(s.line)
+            if p["payload"] and receiver_is_orbiter(p):
+                pid, cp = dest_of(p)
+                A = parse_go_int(p["ftpd"]["amount"])
+                dn = p["ftpd"]["denom"][len(p["src_port"] + "/" + p["src_chan"] + "/"):]
+                src = (1, p["dst_chan"])
+                # what was forwarded: the bridge request
+                reqs = [x for x in (s.impl.get("hreq") or "-").split(";") if not x.startswith("swap:")]
+                import re
+                m = re.search(r"amount=(\d+)", reqs[0]) if reqs and reqs[0] != "-" else None
+                out_dn = dn
+                if m:
+                    fwd = int(m.group(1))
+                    m2 = re.search(r"burn=([0-9a-f]+)", reqs[0])
+                    if m2:
+                        out_dn = unhx(m2.group(1)).decode()
+                else:
+                    m3 = re.search(r"coins=([0-9a-f]+)=(\d+)", reqs[0]) if reqs else None
+                    if not m3:
+                        continue
+                    out_dn, fwd = unhx(m3.group(1)).decode(), int(m3.group(2))
+                if "warp.RemoteTransfer" in reqs[0]:
+                    sw = [x for x in (s.impl.get("hreq") or "").split(";") if x.startswith("swap:")]
+                    if sw:
+                        out_dn = unhx(sw[-1].split(":")[3].split("=")[1]).decode()
+                if out_dn == dn:
+                    k = (src, (pid, cp), dn)
+                    a = amts.get(k, (0, 0))
+                    amts[k] = (a[0] + A, a[1] + fwd)
+                else:
+                    k1, k2 = (src, (pid, cp), dn), (src, (pid, cp), out_dn)
+                    a = amts.get(k1, (0, 0))
+                    amts[k1] = (a[0] + A, a[1])
+                    b = amts.get(k2, (0, 0))
+                    amts[k2] = (b[0], b[1] + fwd)
+                cnts[(src, (pid, cp))] = cnts.get((src, (pid, cp)), 0) + 1
+        if "st" in s.impl and s.op in ("recvh", "recv", "msg", "export"):
+            st = s.impl["st"]
+            try:
+                got_a, got_c = {}, {}
+                parts = dict(x.split("=", 1) for x in st.split(";"))
+                for e in parts["amts"][1:-1].split(","):
+                    if e:
+                        f = e.split("|")
+                        got_a[((int(f[0]), unhx(f[1]).decode()), (int(f[2]), unhx(f[3]).decode()), unhx(f[4]).decode())] = (int(f[5]), int(f[6]))
+                for e in parts["cnts"][1:-1].split(","):
+                    if e:
+                        f = e.split("|")
+                        got_c[((int(f[0]), unhx(f[1]).decode()), (int(f[2]), unhx(f[3]).decode()))] = int(f[4])
+            except Exception:
+                continue
+            if got_a != amts or got_c != cnts:
+                da = {k: (got_a.get(k), amts.get(k)) for k in set(got_a) | set(amts) if got_a.get(k) != amts.get(k)}
+                dc = {k: (got_c.get(k), cnts.get(k)) for k in set(got_c) | set(cnts) if got_c.get(k) != cnts.get(k)}
+                out.append((s.i, "stats-not-fold: recorded vs fold of successful transfers differ: amounts %s counts %s" % (str(da)[:300], str(dc)[:200])))
+                amts, cnts = got_a, got_c   # resynchronise so that one defect is reported once
+    return out
+
+
+@prop
+class C12(Base):
+    id = "C12"
+    assumptions = ["totals stay below 2^256 and counts below 2^64-1 (inside that headroom; beyond it the update is refused and logged)"]
+
+    def streams(self, tier, seed):
+        out = []
+        f = {"recvh": ["ack", "st"], "msg": ["res", "st"], "query": ["res", "out", "next", "total"], "reimport": ["valid", "init", "same", "st"]}
+        for h in range(self.n(tier, 3, 10)):
+            r = Rng(seed * 100000 + 1200 + h)
+            lines, toks = scen.base_setup()
+            lines.append("deposit %s %s %d" % (hx(POOL), hx("uother"), 10 ** 30))
+            lines.append("swapctl 2 1 " + hx("uother"))
+            hist = scen.tuned_history(r, self.n(tier, 200, 700), toks, op="recvh", p_admin=10, p_deposit=4, p_query=10, p_reimport=1)
+            # sprinkle denomination-changing actions
+            hist2 = []
+            for l in hist:
+                hist2.append(l)
+                if l.startswith("recvh") and r.chance(1, 8):
+                    hist2.append(orb_pkt("recvh", r.range(1, 10 ** 9), int_fwd(r.choice(U[:3])), [swap_action(), fee_action([(U[4], "b", 100)])], denom="uusdc", dst_chan=r.choice(CHANNELS)))
+            out.append(Stream("S3-stats-history-%d" % h, lines + hist2, fields=f, oracle=c12_oracle))
+        return out
+
+
+# ----------------------------------------------------------------------------------------------- C16
+
+def c16_lines(r, n):
+    lines, toks = scen.base_setup()
+    good = memo(int_fwd(U[1]))
+    for d in scen.DENOM_GRID:
+        for (p, c) in [("transfer", "channel-7"), ("transfer", "channel-70"), ("other", "channel-7")]:
+            lines.append("pure denom %s %s %s" % (hx(d), hx(p), hx(c)))
+            # what ICS-20 alone credits for the same denomination, and what the orbiter does with it
+            lines.append(pkt_line("recv", ftpd(d, 1000, U[0], ""), src_port=p, src_chan=c))
+            lines.append(pkt_line("recvh", ftpd(d, 1000, ORB, good), src_port=p, src_chan=c))
+    for a in ["1", "01", "010", "0x10", "0b11", "0o17", "1_000", "+5", "5", "-5", "0", "", " 1", "1e3", str(10 ** 25)]:
+        lines.append(pkt_line("recv", ftpd("transfer/channel-7/uusdc", a, U[0], "")))
+        lines.append(pkt_line("recvh", ftpd("transfer/channel-7/uusdc", a, ORB, good)))
+    lines += scen.denom_grid(r, n)
+    return lines
+
+
+def c16_oracle(steps):
+    out = []
+    last_pure = None
+    last_plain = None
+    for s in steps:
+        if s.op == "pure" and s.line.split(" ")[1] == "denom":
+            last_pure = s
+            last_plain = None
+            continue
+        if s.op == "recv" and last_pure is not None:
+            last_plain = s
+            continue
+        if s.op == "recvh":
+            p = packet_of(s.line)
+            if not receiver_is_orbiter(p):
+                continue
+            if s.impl.get("ack") == "ok":
+                delta = parse_delta(s.impl.get("bal"))
+                esc = ("escrow:%s/%s" % (p["dst_port"], p["dst_chan"])).encode().hex()
+                released = [(d, -v) for (a, d), v in delta.items() if a == esc and v < 0]
+                minted = parse_sup(s.impl.get("sup"))
+                if any(v > 0 for v in minted.values()):
+                    out.append((s.i, "voucher-processed: an orbiter transfer minted a voucher (token not native to this chain)"))
+                if len(released) != 1:
+                    out.append((s.i, "not-returning: orbiter transfer succeeded without releasing exactly one escrowed coin: %s" % released))
+                    continue
+                dn, amt = released[0]
+                # the coin acted on, forwarded and recorded is the coin ICS-20 credited
+                import re
+                req = s.impl.get("hreq") or ""
+                m = re.search(r"coins=([0-9a-f]+)=(\d+)", req)
+                if m and (unhx(m.group(1)).decode() != dn or int(m.group(2)) != amt):
+                    out.append((s.i, "different-coin: forwarded %s %s, ICS-20 credited %d %s" % (m.group(2), unhx(m.group(1)).decode(), amt, dn)))
+                st = s.impl.get("st", "")
+                if ("|%s|" % hx(dn)) not in st:
+                    out.append((s.i, "different-coin: statistics do not record denom %s" % dn))
+                if last_pure is not None and last_pure.impl_raw.startswith("ok:"):
+                    if unhx(last_pure.impl_raw[3:]).decode() != dn and p["ftpd"]["denom"] == unhx(last_pure.line.split(" ")[2]).decode("utf-8", "replace"):
+                        out.append((s.i, "different-coin: RecoverNativeDenom says %s, ICS-20 credited %s" % (unhx(last_pure.impl_raw[3:]).decode(), dn)))
+                # a one-hop voucher whose prefix is the packet's source port and channel
+                pre = p["src_port"] + "/" + p["src_chan"] + "/"
+                d0 = p["ftpd"]["denom"]
+                if not d0.startswith(pre) or "/" in dn and False:
+                    out.append((s.i, "not-native: accepted denom %r is not prefixed by the source port/channel" % d0))
+            last_pure = None
+    return out
+
+
+@prop
+class C16(Base):
+    id = "C16"
+    assumptions = ["ibc-go's denomination helpers (SenderChainIsSource, ParseDenomTrace, GetDenomPrefix) are shared by the orbiter and ICS-20; the model mirrors them and the theorem c16_same_coin is parametric in them"]
+
+    def streams(self, tier, seed):
+        r = Rng(seed * 1000 + 16)
+        f = {"pure": ["_"], "recv": ["ack", "bal"], "recvh": ["ack", "bal", "hreq", "st"]}
+        return [Stream("S1+S3-denominations-beside-ICS20", c16_lines(r, self.n(tier, 200, 2000)), fields=f, oracle=c16_oracle)]
+
+
+# ----------------------------------------------------------------------------------------------- C18
+
+def c18_lines(r, n):
+    lines, toks = scen.base_setup()
+    limit_values = [0, 1, 2, 16, 17, 64, 255, 256, 4096, 2 ** 32 - 1]
+
+    def probes(limit):
+        out = []
+        for L in sorted({0, 1, max(0, limit - 1), limit, limit + 1, limit + 2, 2 * limit + 3} & set(range(0, 6000))):
+            rt = r.choice([cctp_fwd(domain=0, passthrough=b"\xab" * L), hyp_fwd(toks[0][0], domain=1, passthrough=b"\xcd" * L)])
+            out.append(orb_pkt("recv", 1000, rt))
+        return out
+    lines += probes(0)                       # default parameters
+    lines.append("query Params")
+    for _ in range(n):
+        v = r.choice(limit_values)
+        signer = AUTHORITY if r.chance(4, 5) else U[0]
+        lines.append(msg_line("UpdateParams", signer, str(v)))
+        lines.append("query Params")
+        cur = v if signer == AUTHORITY else None
+        lines += probes(v if cur is not None else r.choice(limit_values))
+        if r.chance(1, 6):
+            lines.append("reimport")
+        if r.chance(1, 5):
+            lines.append("deposit %s %s 3" % (hx(ORB_BYTES), hx("uusdc")))
+    return lines
+
+
+def c18_oracle(steps):
+    out = []
+    limit = 0
+    for s in steps:
+        if s.op == "setup":
+            limit = 0
+        if s.op == "msg" and s.line.split(" ")[1] == "UpdateParams" and s.impl.get("res") == "ok":
+            limit = int(s.line.split(" ")[3])
+        if s.op == "query" and s.line.split(" ")[1] == "Params" and s.impl.get("res") == "ok":
+            if int(s.impl["out"]) != limit:
+                out.append((s.i, "limit-not-last-set: Params reports %s, the value most recently set is %d" % (s.impl["out"], limit)))
+        if s.op in RECV_OPS:
+            p = packet_of(s.line)
+            if not p["payload"] or not receiver_is_orbiter(p):
+                continue
+            import base64
+            pt = (p["payload"].get("forwarding") or {}).get("passthrough_payload") or ""
+            try:
+                L = len(base64.b64decode(pt))
+            except Exception:
+                continue
+            if L > limit and s.impl.get("ack") == "ok":
+                out.append((s.i, "over-limit-accepted: passthrough of %d bytes accepted with limit %d" % (L, limit)))
+            if L <= limit and s.impl.get("ack") != "ok":
+                txt = unhx(s.impl.get("acktxt", "-")).decode("utf-8", "replace")
+                if "passthrough payload size" in txt:
+                    out.append((s.i, "within-limit-refused: passthrough of %d bytes refused for size with limit %d" % (L, limit)))
+            if L > limit and s.impl.get("ack") == "err" and s.impl.get("bal") != "-":
+                out.append((s.i, "after-credit: size refusal after funds moved"))
+    return out
+
+
+@prop
+class C18(Base):
+    id = "C18"
+    assumptions = []
+
+    def streams(self, tier, seed):
+        r = Rng(seed * 1000 + 18)
+        f = {"recv": ["ack", "bal"], "msg": ["res", "st"], "query": ["res", "out"], "reimport": ["valid", "init", "same", "st"]}
+        return [Stream("S3-parameter-history", c18_lines(r, self.n(tier, 25, 250)), fields=f, oracle=c18_oracle)]
+
+
+# ----------------------------------------------------------------------------------------------- C13
+
+def c13_build(r, n_hist, limits, tier):
+    from proto import Proc, IMPL
+    lines, toks = scen.base_setup(routers=((1, 50000), (2, 0), (10, 0), (11, 0), (100, 0)))
+    tok = toks[0][0]
+    # a ledger with many routes: sources x destinations (including ids where one is a prefix of another) x denoms
+    for _ in range(n_hist):
+        k = r.below(10)
+        if k < 3:
+            fwd, dn = cctp_fwd(domain=r.choice([0, 1, 5])), "uusdc"
+        elif k < 7:
+            fwd, dn = hyp_fwd(tok, domain=r.choice([1, 2, 10, 11, 100])), "uusdc"
+        else:
+            fwd, dn = int_fwd(r.choice(U[:2])), r.choice(DENOMS)
+        acts = [fee_action([(U[4], "b", 100)])] if r.chance(1, 2) else None
+        lines.append(orb_pkt("recv", r.range(1, 10 ** 6), fwd, acts, denom=dn, dst_chan=r.choice(CHANNELS)))
+    lines.append(msg_line("PauseCrossChains", AUTHORITY, hx("PROTOCOL_CCTP"), *[hx(str(x)) for x in (0, 1, 10, 11, 100, 5, 55, 4294967295)]))
+    lines.append(msg_line("PauseCrossChains", AUTHORITY, hx("PROTOCOL_INTERNAL"), *[hx(x) for x in ("a", "ab", "abc", "b", "noble")]))
+    lines.append(msg_line("PauseCrossChains", AUTHORITY, hx("PROTOCOL_HYPERLANE"), hx("7")))
+    p = Proc([IMPL])
+    for l in lines:
+        p.ask(l)
+    walks = []
+    qs = []
+    for pn in PROTO_NAMES:
+        qs.append(("PausedCrossChains", hx(pn)))
+        for q in ("DispatchedCountsBySrc", "DispatchedCountsByDst", "DispatchedAmountsBySrc", "DispatchedAmountsByDst"):
+            qs.append((q, hx(pn)))
+    for (q, arg) in qs:
+        # reference listing (no pagination: default limit 100, total counted)
+        ref_i = len(lines)
+        lines.append("query %s %s nopage" % (q, arg))
+        ref = kv(p.ask(lines[-1]))
+        for lim in limits:
+            for rev in (0, 1):
+                for ct in (0, 1):
+                    # by key
+                    idxs, key, seen = [], "-", set()
+                    for _ in range(64):
+                        l = "query %s %s %s 0 %d %d %d" % (q, arg, key, lim, ct, rev)
+                        idxs.append(len(lines))
+                        lines.append(l)
+                        o = kv(p.ask(l))
+                        nk = o.get("next", "-")
+                        if o.get("res") != "ok" or nk == "-" or nk in seen:
+                            break
+                        seen.add(nk)
+                        key = nk
+                    walks.append(("key", q, arg, lim, rev, ct, ref_i, idxs))
+                # by offset
+                idxs, off = [], 0
+                for _ in range(64):
+                    l = "query %s %s - %d %d 1 %d" % (q, arg, off, lim, rev)
+                    idxs.append(len(lines))
+                    lines.append(l)
+                    o = kv(p.ask(l))
+                    if o.get("res") != "ok" or o.get("out", "[]") == "[]":
+                        break
+                    off += lim
+                walks.append(("offset", q, arg, lim, rev, 1, ref_i, idxs))
+        # odd requests: key and offset together, unknown key, key past the end
+        for l in ["query %s %s %s 3 2 0 0" % (q, arg, hx("zz")), "query %s %s %s 0 2 0 0" % (q, arg, hx("\xff\xff")), "query %s %s %s 0 2 1 1" % (q, arg, hx("0")),
+                  "query %s %s - 1000 2 1 0" % (q, arg)]:
+            lines.append(l)
+            p.ask(l)
+    # direct lookups: positive entries found, absent ones not found
+    for sp in ("PROTOCOL_IBC",):
+        for sc in CHANNELS:
+            for (dp, dc) in [("PROTOCOL_CCTP", "0"), ("PROTOCOL_CCTP", "1"), ("PROTOCOL_CCTP", "7"), ("PROTOCOL_HYPERLANE", "1"), ("PROTOCOL_HYPERLANE", "10"), ("PROTOCOL_INTERNAL", "noble"), ("PROTOCOL_INTERNAL", "x")]:
+                lines.append("query DispatchedCounts %s %s %s %s" % (hx(sp), hx(sc), hx(dp), hx(dc)))
+                for dn in DENOMS:
+                    lines.append("query DispatchedAmounts %s %s %s %s %s" % (hx(sp), hx(sc), hx(dp), hx(dc), hx(dn)))
+    lines.append("export")
+    p.close()
+    return lines, walks
+
+
+def split_items(out):
+    return [x for x in out[1:-1].split(",") if x]
+
+
+def c13_make_oracle(walks):
+    def oracle(steps):
+        out = []
+        # the export is the ledger
+        exp = None
+        for s in reversed(steps):
+            if s.op == "export":
+                exp = dict(x.split("=", 1) for x in s.impl["st"].split(";"))
+                break
+        for (mode, q, arg, lim, rev, ct, ref_i, idxs) in walks:
+            ref = split_items(steps[ref_i].impl.get("out", "[]"))
+            got = []
+            stuck = False
+            for j, i in enumerate(idxs):
+                s = steps[i]
+                if s.impl.get("res") != "ok":
+                    continue
+                items = split_items(s.impl.get("out", "[]"))
+                got += items
+                if mode == "key" and j == len(idxs) - 1 and s.impl.get("next", "-") != "-":
+                    stuck = True
+                if j == 0 and ct == 1 and ref:
+                    if int(s.impl.get("total", "0")) != len(ref):
+                        out.append((i, "total: %s reports total %s for %d matching entries" % (q, s.impl.get("total"), len(ref))))
+            want = list(reversed(ref)) if rev else ref
+            if stuck or got != want:
+                kind = "reverse-key" if (mode == "key" and rev) else mode
+                out.append((idxs[-1], "walk-%s: following %s pages of %s (limit %d, reverse %d) visits %d entries (%d distinct) of %d%s" % (
+                    kind, mode, q, lim, rev, len(got), len(set(got)), len(ref), ", never terminating" if stuck else "")))
+        # listings against the export: by source / by destination = filter of the ledger
+        if exp is not None:
+            amts = split_items(exp["amts"])
+            cnts = split_items(exp["cnts"])
+            for s in steps:
+                if s.op == "query" and s.line.endswith(" nopage") and s.impl.get("res") == "ok":
+                    f = s.line.split(" ")
+                    pid = PauseSpec.P.get(unhx(f[2]).decode())
+                    items = split_items(s.impl.get("out", "[]"))
+                    if f[1] == "DispatchedAmountsBySrc":
+                        want = [a for a in amts if int(a.split("|")[0]) == pid]
+                    elif f[1] == "DispatchedAmountsByDst":
+                        want = [a for a in amts if int(a.split("|")[2]) == pid]
+                    elif f[1] == "DispatchedCountsBySrc":
+                        want = [c for c in cnts if int(c.split("|")[0]) == pid]
+                    elif f[1] == "DispatchedCountsByDst":
+                        want = [c for c in cnts if int(c.split("|")[2]) == pid]
+                    else:
+                        continue
+                    if sorted(items) != sorted(want) or len(set(items)) != len(items):
+                        out.append((s.i, "listing: %s(%s) returns %d entries, the ledger has %d matching" % (f[1], pid, len(items), len(want))))
+                if s.op == "query" and s.line.split(" ")[1] in ("DispatchedCounts", "DispatchedAmounts"):
+                    f = s.line.split(" ")
+                    src = "%d|%s" % (PauseSpec.P[unhx(f[2]).decode()], f[3])
+                    dst = "%d|%s" % (PauseSpec.P[unhx(f[4]).decode()], f[5])
+                    if f[1] == "DispatchedCounts":
+                        present = [c for c in cnts if c.startswith(src + "|" + dst + "|")]
+                    else:
+                        present = [a for a in amts if a.startswith(src + "|" + dst + "|" + f[6] + "|")]
+                    if (s.impl.get("res") == "ok") != bool(present):
+                        out.append((s.i, "lookup: %s returns %s, the ledger %s the entry" % (f[1], s.impl.get("res"), "has" if present else "does not have")))
+                    elif present and split_items(s.impl.get("out", "[]")) != present:
+                        out.append((s.i, "lookup: %s returns a different entry than the ledger" % f[1]))
+        return out
+    return oracle
+
+
+@prop
+class C13(Base):
+    id = "C13"
+    assumptions = ["query.CollectionPaginate of the pinned SDK is modelled (forward, reverse, key and offset modes); reverse pagination by key inherits an SDK defect (known finding)"]
+
+    def streams(self, tier, seed):
+        out = []
+        for h in range(self.n(tier, 1, 4)):
+            r = Rng(seed * 100000 + 1300 + h)
+            lines, walks = c13_build(r, self.n(tier, 60, 150), [1, 2, 3] if tier == "quick" else [1, 2, 3, 7, 50], tier)
+            f = {"query": ["res", "out", "next", "total"], "export": ["st"], "recv": ["ack", "st"], "msg": ["res", "st"]}
+            out.append(Stream("S3-pagination-walks-%d" % h, lines, fields=f, oracle=c13_make_oracle(walks), note="%d walks" % len(walks), shrink=False))
+        return out
+
+
+# ----------------------------------------------------------------------------------------------- C15
+
+def hxb(b):
+    return b.hex() if b else "-"
+
+
+def c15_roundtrip_build(r, n, toks):
+    """constructor-built payloads -> MarshalJSON (real code) -> parse; expected canonical payload computed here"""
+    from proto import Proc, IMPL
+    p = Proc([IMPL])
+    lines = []
+    expect = {}
+    tok = toks[0][0]
+    for i in range(n):
+        k = r.below(3)
+        nact = r.below(2)
+        pt = r.choice([b"", b"", r.bytes(r.range(1, 40))])
+        if k == 0:
+            dom = r.choice([0, 1, 5, 7, 2 ** 32 - 1])
+            mint = r.bytes(r.choice([32, 20, 1]))
+            caller = r.choice([b"", r.bytes(32)])
+            spec = "cctp:%d:%s:%s:%s" % (dom, hxb(mint), hxb(caller), hxb(pt))
+            fw = "fwd{pid=2;attr=cctp(%d,%s,%s);pt=%s}" % (dom, hxb(mint), hxb(caller), hxb(pt))
+        elif k == 1:
+            rec = r.choice(U)
+            spec = "int:%s" % hx(rec)
+            fw = "fwd{pid=4;attr=int(%s);pt=-}" % hx(rec)
+        else:
+            dom = r.choice([1, 2, 10])
+            rc, hook = r.bytes(32), r.choice([b"", r.bytes(32)])
+            meta = r.choice(["", "0x", "0xabcdef"])
+            gas = r.choice([0, 1, 50000, 2 ** 200])
+            fd, fa = r.choice([("uusdc", 0), ("uusdc", 5), ("stake", 10 ** 30)])
+            spec = "hyp:%s:%d:%s:%s:%s:%d:%s:%d:%s" % (hxb(tok), dom, hxb(rc), hxb(hook), hx(meta), gas, hx(fd), fa, hxb(pt))
+            fw = "fwd{pid=3;attr=hyp(%s,%d,%s,%s,%s,%d,%s,%d);pt=%s}" % (hxb(tok), dom, hxb(rc), hxb(hook), hx(meta), gas, hx(fd), fa, hxb(pt))
+        acts_spec, acts_c = "", []
+        if nact:
+            m = r.range(0, 5)
+            es, cs = [], []
+            for _ in range(m):
+                rec = r.choice(U)
+                if r.chance(1, 2):
+                    v = r.choice([1, 100, 10000])
+                    es.append("%s b %s" % (hx(rec), hx(str(v))))
+                    cs.append("%s:b:%d" % (hx(rec), v))
+                else:
+                    v = str(r.choice([1, 7, 10 ** 30]))
+                    es.append("%s a %s" % (hx(rec), hx(v)))
+                    cs.append("%s:a:%s" % (hx(rec), hx(v)))
+            acts_spec = " fee %d %s" % (m, " ".join(es))
+            acts_c = ["{id=1;attr=fee([%s])}" % ",".join(cs)]
+        l1 = "pure marshal %s %d%s" % (spec, nact, acts_spec)
+        o = p.ask(l1)
+        lines.append(l1)
+        if o.startswith("ok:"):
+            l2 = "pure parse " + o[3:]
+            lines.append(l2)
+            expect[len(lines) - 1] = "ok:" + fw + ";acts[" + ",".join(acts_c) + "]"
+            lines.append("pure parse2 " + o[3:])
+    p.close()
+    return lines, expect
+
+
+def c15_accept_oracle(steps):
+    """a memo is accepted only if it is a JSON object whose single root key is 'orbiter', with one forwarding of a supported
+    id and registered forwarding attributes, and pre-actions with distinct supported ids and registered action attributes"""
+    out = []
+    fwd_urls = {scen.CCTP_URL, scen.HYP_URL, scen.INT_URL}
+    for s in steps:
+        if s.op != "pure" or s.line.split(" ")[1] != "parse" or not s.impl_raw.startswith("ok:"):
+            continue
+        raw = unhx(s.line.split(" ")[2])
+        try:
+            pairs = []
+
+            def hook(pp):
+                pairs.append(pp)
+                return dict(pp)
+            doc = _json.loads(raw.decode("utf-8", "replace"), object_pairs_hook=hook)
+        except Exception:
+            out.append((s.i, "accepted-not-json: %r" % raw[:80]))
+            continue
+        if not isinstance(doc, dict) or list(doc.keys()) != ["orbiter"] or not isinstance(doc["orbiter"], dict):
+            out.append((s.i, "accepted-root: root of an accepted memo is %s" % (list(doc.keys()) if isinstance(doc, dict) else type(doc).__name__)))
+            continue
+        o = doc["orbiter"]
+        known = {"forwarding", "pre_actions", "preActions"}
+        if set(o) - known:
+            out.append((s.i, "accepted-unknown-field: %s" % sorted(set(o) - known)))
+        fw = o.get("forwarding")
+        if not isinstance(fw, dict) or not isinstance(fw.get("attributes"), dict) or fw["attributes"].get("@type") not in fwd_urls:
+            out.append((s.i, "accepted-forwarding: accepted without a forwarding of a registered type"))
+            continue
+        pid = fw.get("protocol_id", fw.get("protocolId"))
+        if pid not in PROTO_NAMES and pid not in (1, 2, 3, 4):
+            out.append((s.i, "accepted-protocol-id: %r" % (pid,)))
+        acts = o.get("pre_actions", o.get("preActions")) or []
+        ids = []
+        for a in acts:
+            if not isinstance(a, dict) or not isinstance(a.get("attributes"), dict) or a["attributes"].get("@type") != scen.FEE_URL:
+                out.append((s.i, "accepted-action: accepted with an action that lacks registered action attributes"))
+                break
+            i = a.get("id")
+            i = {"ACTION_FEE": 1, "ACTION_SWAP": 2}.get(i, i)
+            if i not in (1, 2):
+                out.append((s.i, "accepted-action-id: %r" % (a.get("id"),)))
+            ids.append(i)
+        if len(set(ids)) != len(ids):
+            out.append((s.i, "accepted-repeated-action: %s" % ids))
+    return out
+
+
+def c15_make_rt_oracle(expect):
+    def oracle(steps):
+        out = []
+        for i, want in expect.items():
+            s = steps[i]
+            if s.impl_raw != want:
+                out.append((i, "round-trip: MarshalJSON output parses to %s, the constructed payload is %s" % (s.impl_raw[:200], want[:200])))
+        return out
+    return oracle
+
+
+def c15_purity_lines(r, toks, reps):
+    both = "{\"orbiter\":{\"pre_actions\":[{\"id\":\"ACTION_FEE\",\"attributes\":{\"@type\":\"" + scen.FEE_URL + "\",\"fees_info\":[{\"recipient\":\"" + U[0] + "\",\"basis_points\":{\"value\":100},\"amount\":{\"value\":\"7\"}}]}}],\"forwarding\":" + _json.dumps(int_fwd(U[1])) + "}}"
+    both2 = both.replace("\"basis_points\":{\"value\":100},\"amount\":{\"value\":\"7\"}", "\"amount\":{\"value\":\"7\"},\"basisPoints\":{\"value\":100}")
+    memos = [_json.dumps(d, separators=(",", ":")) for d in scen.payload_shapes(toks)] + [both, both2]
+    lines = []
+    groups = []
+    for m in memos:
+        g = []
+        for _ in range(reps):
+            g.append(len(lines))
+            lines.append("pure parse " + hx(m))
+        groups.append(g)
+    return lines, groups
+
+
+def c15_make_purity_oracle(groups):
+    def oracle(steps):
+        out = []
+        for g in groups:
+            outs = {steps[i].impl_raw for i in g}
+            if len(outs) > 1:
+                both = "basis_points" in unhx(steps[g[0]].line.split(" ")[2]).decode() or "basisPoints" in unhx(steps[g[0]].line.split(" ")[2]).decode()
+                memo_txt = unhx(steps[g[0]].line.split(" ")[2]).decode()
+                tag = "impure-oneof" if ("\"amount\":{" in memo_txt and ("basis_points" in memo_txt or "basisPoints" in memo_txt) and memo_txt.count("recipient") == 1 + memo_txt.count("InternalAttributes")) else "impure"
+                out.append((g[-1], "%s: the same memo parses to %d different payloads across %d calls" % (tag, len(outs), len(g))))
+        return out
+    return oracle
+
+
+@prop
+class C15(Base):
+    id = "C15"
+    assumptions = ["theorems are at the JSON tree level; the text layer (encoding/json) is tied by correspondence only"]
+
+    def streams(self, tier, seed):
+        r = Rng(seed * 1000 + 15)
+        _, toks = scen.base_setup()
+        per = 600 if tier == "thorough" else 120
+        s1 = scen.parse_lines_for(scen.payload_shapes(toks), r.fork(1), per) + ["pure parse " + hx(m) for m in scen.EXTRA_MEMOS]
+        rt, expect = c15_roundtrip_build(r.fork(2), self.n(tier, 120, 1200), toks)
+        pl, groups = c15_purity_lines(r.fork(3), toks, 16)
+        f = {"pure": ["_"]}
+        return [Stream("S1-acceptance", s1, fields=f, oracle=c15_accept_oracle),
+                Stream("S1-marshal-parse-roundtrip", rt, fields=f, oracle=c15_make_rt_oracle(expect), shrink=False),
+                Stream("S1-purity-16-fresh-decodes", pl, fields={}, oracle=c15_make_purity_oracle(groups), shrink=False)]
+
+
+# ----------------------------------------------------------------------------------------------- C17
+
+def cc(p, c):
+    return "%d|%s" % (p, hx(c))
+
+
+def gen_genesis(r):
+    """a genesis document in the canonical text form, around the validity boundary"""
+    pp = [r.choice([1, 2, 3, 4, 0, 5, -1]) if r.chance(1, 6) else r.choice([1, 2, 3, 4]) for _ in range(r.below(4))]
+    if r.chance(1, 5) and pp:
+        pp.append(pp[0])           # repeated entry
+    pa = [r.choice([1, 2]) for _ in range(r.below(3))]
+    if r.chance(1, 8):
+        pa.append(r.choice([0, 3]))
+    cps = {1: ["channel-0", "channel-9", "channel-x"], 2: ["0", "1", "01", "4294967295", "4294967296"], 3: ["1", "10", "-1"], 4: ["noble", "a:b", "x" * 32, "x" * 33, "a\x00b", ""]}
+    pcc = []
+    for _ in range(r.below(5)):
+        p = r.choice([1, 2, 3, 4])
+        c = r.choice(cps[p][:2]) if r.chance(3, 4) else r.choice(cps[p])
+        pcc.append(cc(p, c))
+    if r.chance(1, 6) and pcc:
+        pcc.append(pcc[0])
+    if r.chance(1, 15):
+        pcc.append("nil")
+    amts, cnts = [], []
+    for _ in range(r.below(5)):
+        sp, dp = 1, r.choice([2, 3, 4])
+        sc = r.choice(["channel-0", "channel-1"]) if r.chance(7, 8) else r.choice(cps[1])
+        dc = r.choice(cps[dp][:2]) if r.chance(5, 6) else r.choice(cps[dp])
+        if r.chance(1, 12):
+            sp, sc = 4, r.choice(cps[4])
+        dn = r.choice(["uusdc", "uother", "a/b", ""]) if r.chance(1, 6) else r.choice(DENOMS)
+        i, o = r.choice([(5, 4), (0, 4), (5, 0), (0, 0), (-1, 4), (2 ** 256 - 1, 1)]) if r.chance(1, 4) else (r.range(1, 10 ** 9), r.range(1, 10 ** 9))
+        amts.append("%s|%s|%s|%d|%d" % (cc(sp, sc), cc(dp, dc), hx(dn), i, o))
+        cnts.append("%s|%s|%d" % (cc(sp, sc), cc(dp, dc), r.choice([0, 1, 7, 2 ** 64 - 1]) if r.chance(1, 4) else r.range(1, 1000)))
+    if r.chance(1, 6) and amts:
+        amts.append(amts[0])
+    return "pp=[%s];pcc=[%s];pa=[%s];params=%d;amts=[%s];cnts=[%s]" % (
+        ",".join(str(x) for x in pp), ",".join(pcc), ",".join(str(x) for x in pa), r.choice([0, 16, 2 ** 32 - 1]), ",".join(amts), ",".join(cnts))
+
+
+def c17_doc_lines(r, n):
+    lines = ["setup -"]
+    fixed = ["pp=[];pcc=[];pa=[];params=0;amts=[];cnts=[]", "pp=[2,2];pcc=[];pa=[];params=0;amts=[];cnts=[]", "pp=[];pcc=[];pa=[1,1];params=0;amts=[];cnts=[]",
+             "pp=[];pcc=[2|31,2|31];pa=[];params=0;amts=[];cnts=[]", "pp=[];pcc=[4|" + hx("a\x00b") + "];pa=[];params=0;amts=[];cnts=[]",
+             "pp=[];pcc=[];pa=[];params=0;amts=[4|" + hx("a\x00b") + "|2|30|" + hx("uusdc") + "|1|1];cnts=[]",
+             "pp=[];pcc=[];pa=[];params=0;amts=[1|" + hx("channel-0") + "|4|" + hx("a\x00b") + "|" + hx("uusdc") + "|1|1];cnts=[]",
+             "pp=[];pcc=[];pa=[];params=0;amts=[];cnts=[4|" + hx("a\x00b") + "|2|30|5]",
+             "pp=[];pcc=[];pa=[];params=0;amts=[1|" + hx("channel-0") + "|4|" + hx("a:b") + "|" + hx("uusdc") + "|1|1];cnts=[1|" + hx("channel-0") + "|4|" + hx("a:b") + "|3]"]
+    for g in fixed + [gen_genesis(r) for _ in range(n)]:
+        lines.append("genvalidate " + g)
+        lines.append("geninit " + g)
+    return lines
+
+
+def c17_doc_oracle(steps):
+    out = []
+    last = None
+    for s in steps:
+        if s.op == "genvalidate":
+            last = s
+        elif s.op == "geninit" and last is not None:
+            if last.impl.get("res") == "ok" and s.impl.get("res") != "ok":
+                what = "repeated" if "already paused" in "" else ""
+                g = s.line.split(" ")[1]
+                kind = "validated-not-initialisable"
+                import re
+                parts = dict(x.split("=", 1) for x in g.split(";"))
+                items = lambda k: [x for x in parts[k][1:-1].split(",") if x]
+                if len(set(items("pp"))) != len(items("pp")) or len(set(items("pcc"))) != len(items("pcc")) or len(set(items("pa"))) != len(items("pa")):
+                    kind = "validated-not-initialisable-repeated-pause-entry"
+                elif "00" in g and any("00" in x for x in items("amts") + items("cnts")):
+                    kind = "validated-not-initialisable-nul-in-key"
+                out.append((s.i, "%s: genesis accepted by ValidateGenesis makes InitGenesis %s" % (kind, s.impl.get("res"))))
+            if last.impl.get("res") == "panic":
+                out.append((last.i, "validate-panic: ValidateGenesis panicked"))
+            last = None
+    return out
+
+
+def c17_hist_oracle(steps):
+    out = []
+    for s in steps:
+        if s.op == "reimport":
+            if s.impl.get("valid") != "ok":
+                out.append((s.i, "export-invalid: the exported genesis does not pass validation"))
+            elif s.impl.get("init") != "ok":
+                out.append((s.i, "export-not-initialisable: the exported genesis cannot be initialised"))
+            elif s.impl.get("same") != "true":
+                out.append((s.i, "export-not-fixpoint: export -> init -> export yields a different genesis"))
+        if s.op == "geninit" and s.line.startswith("geninit @"):
+            pass
+    return out
+
+
+def c17_export_geninit_build(r, n, toks):
+    """history; at points export the state and initialise a FRESH chain with it; its export must be the same"""
+    from proto import Proc, IMPL
+    lines, _ = scen.base_setup()
+    lines += scen.tuned_history(r, n, toks, p_admin=25, p_deposit=3, p_query=0, p_reimport=0)
+    p = Proc([IMPL])
+    out_lines = []
+    expect = {}
+    for i, l in enumerate(lines):
+        o = p.ask(l)
+        out_lines.append(l)
+        if (i % 40 == 39) or i == len(lines) - 1:
+            e = kv(p.ask("export"))
+            out_lines.append("export")
+            out_lines.append("genvalidate " + e["st"])
+            expect[len(out_lines) - 1] = ("valid", None)
+            out_lines.append("geninit " + e["st"])
+            expect[len(out_lines) - 1] = ("init", e["st"])
+    p.close()
+    return out_lines, expect
+
+
+def c17_make_fresh_oracle(expect):
+    def oracle(steps):
+        out = c17_hist_oracle(steps) + pause_oracle(steps)
+        for i, (kind, st) in expect.items():
+            s = steps[i]
+            if kind == "valid" and s.impl.get("res") != "ok":
+                out.append((i, "export-invalid: the exported genesis does not pass validation"))
+            if kind == "init":
+                if s.impl.get("res") != "ok":
+                    out.append((i, "export-not-initialisable: a fresh chain cannot be initialised from the export (%s)" % s.impl.get("res")))
+                elif s.impl.get("st") != st:
+                    out.append((i, "export-not-fixpoint: a fresh chain initialised from the export exports a different genesis"))
+        return out
+    return oracle
+
+
+@prop
+class C17(Base):
+    id = "C17"
+    assumptions = ["'behaves identically' is observed by continuing the same history after an in-place export -> validate -> init round trip and comparing with the model, whose behaviour depends on the module state only"]
+
+    def streams(self, tier, seed):
+        out = []
+        f = {"reimport": ["valid", "init", "same", "st"], "recv": ["ack", "st"], "msg": ["res", "st"], "genvalidate": ["res"], "geninit": ["res", "st"], "export": ["st"]}
+        _, toks = scen.base_setup()
+        for h in range(self.n(tier, 2, 8)):
+            r = Rng(seed * 100000 + 1700 + h)
+            lines, _ = scen.base_setup()
+            lines += scen.tuned_history(r, self.n(tier, 200, 600), toks, p_admin=25, p_deposit=3, p_query=5, p_reimport=8)
+            out.append(Stream("S3-history-with-reimports-%d" % h, lines, fields=f, oracle=lambda st: c17_hist_oracle(st) + pause_oracle(st)))
+        r = Rng(seed * 1000 + 17)
+        ll, expect = c17_export_geninit_build(r.fork(1), self.n(tier, 160, 600), toks)
+        out.append(Stream("S3-export-to-fresh-chain", ll, fields=f, oracle=c17_make_fresh_oracle(expect), shrink=False))
+        out.append(Stream("S3-genesis-documents", c17_doc_lines(r.fork(2), self.n(tier, 120, 1500)), fields=f, oracle=c17_doc_oracle))
+        return out
+
+
+# ----------------------------------------------------------------------------------------------- C19
+
+def c19_lines(r, n, toks):
+    lines, _ = scen.base_setup()
+    hist = scen.tuned_history(r, n, toks, p_admin=15, p_deposit=5, p_query=10, p_reimport=2)
+    # error-provoking inputs: every class of refusal puts its text into the committed acknowledgement
+    errs = []
+    good = scen.payload_shapes(toks)
+    for doc in good:
+        for m in scen.mutations(doc, r, 25):
+            errs.append(pkt_line("recv", ftpd("transfer/channel-7/uusdc", 1000, ORB, m)))
+    two_unknown = "{\"orbiter\":{\"forwarding\":" + _json.dumps(int_fwd(U[1])) + ",\"aaa\":1,\"bbb\":2,\"ccc\":3}}"
+    three_unknown_attr = "{\"orbiter\":{\"forwarding\":{\"protocol_id\":\"PROTOCOL_INTERNAL\",\"attributes\":{\"@type\":\"" + scen.INT_URL + "\",\"recipient\":\"" + U[1] + "\",\"x1\":1,\"x2\":2,\"x3\":3}}}}"
+    for m in [two_unknown, three_unknown_attr] * 4:
+        errs.append(pkt_line("recv", ftpd("transfer/channel-7/uusdc", 1000, ORB, m)))
+    # repeated action ids in several arrangements, fees exceeding the amount, mismatching balances
+    f1 = fee_action([(U[2], "b", 100)])
+    sw = swap_action()
+    for acts in ([f1, f1], [f1, sw, f1], [sw, sw, f1, f1], [sw, f1, sw, f1], [f1, f1, sw, sw]):
+        errs.append(orb_pkt("recv", 1000, int_fwd(U[1]), acts))
+    errs.append(orb_pkt("recv", 1000, int_fwd(U[1]), [fee_action([(U[2], "a", 1000)])]))
+    errs.append(orb_pkt("recv", 1000, int_fwd(U[1]), [fee_action([(U[2], "a", 5000)])]))
+    errs.append(orb_pkt("recv", 1000, int_fwd(U[1]), [fee_action([(ORB, "a", 5)])]))
+    both = "{\"orbiter\":{\"pre_actions\":[{\"id\":\"ACTION_FEE\",\"attributes\":{\"@type\":\"" + scen.FEE_URL + "\",\"fees_info\":[{\"recipient\":\"" + U[0] + "\",\"basis_points\":{\"value\":100},\"amount\":{\"value\":\"7\"}}]}}],\"forwarding\":" + _json.dumps(int_fwd(U[1])) + "}}"
+    out = lines
+    errs = r.shuffle(errs)
+    k = 0
+    for i, l in enumerate(hist):
+        out.append(l)
+        if i % 3 == 0 and k < len(errs):
+            out.append(errs[k])
+            k += 1
+    out += errs[k:]
+    out.append("export")
+    # the recorded both-oneof memo, as transfers (its effect is on balances); kept last so that nothing follows it
+    for _ in range(6):
+        out.append(pkt_line("recv", ftpd("transfer/channel-7/uusdc", 100000, ORB, both)))
+    return out
+
+
+def c19_make_oracle(lines, nproc):
+    def oracle(steps):
+        import concurrent.futures
+        from proto import IMPL, run_batch
+
+        def one(_):
+            o, rc, err = run_batch([IMPL], lines)
+            return o
+        with concurrent.futures.ThreadPoolExecutor(max_workers=min(8, nproc)) as ex:
+            runs = list(ex.map(one, range(nproc - 1)))
+        out = []
+        base = [s.impl_raw for s in steps]
+        for ri, o in enumerate(runs):
+            if len(o) != len(base):
+                out.append((len(base) - 1, "replay-length: replay %d produced %d outputs instead of %d" % (ri + 1, len(o), len(base))))
+                continue
+            ndiff = 0
+            for i, (a, b) in enumerate(zip(base, o)):
+                if a != b:
+                    ka, kb = kv(a), kv(b)
+                    ks = [k for k in ka if ka.get(k) != kb.get(k)]
+                    memo_txt = ""
+                    try:
+                        memo_txt = unhx(lines[i].split(" ")[5]).decode("utf-8", "replace")
+                    except Exception:
+                        pass
+                    oneof = "\\\"amount\\\":{" in memo_txt and "basis_points" in memo_txt
+                    txt = ""
+                    ta = tb = b""
+                    if "acktxt" in ks:
+                        ta, tb = unhx(ka["acktxt"]), unhx(kb["acktxt"])
+                        txt = " ack A=%r ack B=%r" % (ta[-140:], tb[-140:])
+                    if oneof:
+                        tag = "nondeterministic-oneof"
+                    elif set(ks) <= {"ackh", "acktxt"} and b"unknown field" in ta and b"unknown field" in tb:
+                        tag = "nondeterministic-unknown-field-text"
+                    else:
+                        tag = "nondeterministic-" + "+".join(sorted(ks))
+                    out.append((i, "%s: replaying the same history in a fresh process changes %s%s" % (tag, ",".join(ks), txt)))
+                    ndiff += 1
+                    if ndiff > 40:
+                        break
+        return out
+    return oracle
+
+
+@prop
+class C19(Base):
+    id = "C19"
+    level = "other"
+    explanation = ("partial: (i) Lean theorems that the model's result does not depend on the iteration oracle at the modelled map ranges and that the export is canonical; "
+                   "(ii) replays of generated histories in fresh OS processes compared byte for byte (ack bytes, events, export). Wall-clock, pointer formatting and scheduler effects "
+                   "cannot be exhibited by a functional model; they are covered by the replays only.")
+    assumptions = ["Go randomises map iteration per range statement, so order dependence surfaces across and within replays; N replays cannot prove its absence"]
+
+    def streams(self, tier, seed):
+        r = Rng(seed * 1000 + 19)
+        _, toks = scen.base_setup()
+        out = []
+        for h in range(self.n(tier, 1, 4)):
+            lines = c19_lines(r.fork(h), self.n(tier, 150, 500), toks)
+            out.append(Stream("S4-replays-in-fresh-processes-%d" % h, lines, model=False, oracle=c19_make_oracle(lines, self.n(tier, 3, 10)), shrink=False,
+                              note="%d processes" % self.n(tier, 3, 10)))
+            out.append(Stream("S3-model-agreement-%d" % h, lines[:-6], fields={"recv": ["ack", "src", "bal", "st"], "msg": ["res", "st"], "query": ["res", "out"], "export": ["st"]}))
+        return out
